@@ -104,7 +104,7 @@ func (c12) Gen(tier string, seed int64, emit func([]Ev)) {
 	r := rand.New(rand.NewSource(seed))
 	n := 1500
 	if tier == "thorough" {
-		n = 25000
+		n = 150000
 	}
 	for i := 0; i < n; i++ {
 		emit([]Ev{{"op": "decode", "bytes": B(c12Bytes(r, i%2 == 0))}})
